@@ -22,6 +22,22 @@ CHECKS = {
              "supply for running totals (need-units). Known findings G1 (meat) and G3 (first-year-only stock) are keyed by "
              "clause, round kind and stock regime.",
     ),
+    "C02": dict(
+        technique="TLA+ spec Optimum.tla: TLC exhaustive search over every feasible allocation of small instances (is the real "
+                  "Optimizer's optimum achievable, is optimum + 1 grid unit unreachable) + Ledger trace (OptimumAchieved) of the code's "
+                  "own allocation on small instances and on every people-maximising corpus round",
+        text="For a seeded family of small instances (quick 60, thorough 480; 3-6 months; stock, crops, meat, single-cell protein, "
+             "retail waste 0/50 %, feed charge, both stock regimes; integer supplies on a grid containing the max-min optimum) the real "
+             "Optimizer.optimize_to_humans is run; Optimum.tla's behaviours are exactly the physically feasible allocations that feed "
+             "at least a target every month, so TLC decides by reachability that the reported optimum is attainable and that no "
+             "allocation feeds one grid unit more (a violation comes with the better allocation). The code's own allocation must also "
+             "be a Ledger.tla behaviour whose worst month equals the reported optimum - on the small instances and on all ~200 (thorough "
+             "~5000) people-maximising rounds of the corpus.",
+        design_ref="5 (C02), Optimum.tla, Ledger.tla",
+        note="Optimality over full-size instances (120 months) is not enumerated: there C02 rests on achievability, C01 and C12. The "
+             "feed-maximising round's weighted objective is covered only through its constraints (C01) in this round. Instances use a "
+             "requirement large enough for the intake caps not to bind.",
+    ),
     "C03": dict(
         technique="TLA+ spec Rounds.tla: TLC exhaustive protocol model with liveness (MC_Rounds) + one Trace_Rounds trace per "
                   "recorded three-round run",
@@ -132,6 +148,17 @@ CHECKS = {
         note="Universe: 3 unit triples (default, ratio, percent) x total/per-month/each-month x 2-3 number patterns, series "
              "of 2 months. Outside the domain (named in the spec): non-ratio scalar x ratio series (the code refuses with "
              "'consider implementing this feature'), two ratios with different suffixes. in_units is covered by C10.",
+    ),
+    "C12": dict(
+        technique="TLA+ spec Mono.tla: relations between the optimum of an instance and of a perturbed copy, both solved by the real "
+                  "Optimizer; pairs validated by TLC",
+        text="Every single-entry supply increase, waste decrease, charge increase and common scale factor x2 / x0.5 is applied to the "
+             "small instance family (24 quick, 200 thorough) and, sampled at three months per series, to the first-round inputs of real "
+             "(country, preset) pairs (8 quick, ~90 thorough); both instances are solved by the real Optimizer and the pair must satisfy "
+             "the law of its kind in Mono.tla (461 pairs quick).",
+        design_ref="5 (C12), Mono.tla",
+        note="Laws are checked on the code, not derived from it; tolerance 1e-5 relative + 1e-5 absolute on the percentage. A perturbed "
+             "instance that becomes infeasible is legal only for a charge increase.",
     ),
     "C13": dict(
         technique="TLA+ spec Options.tla: TLC-enumerated setter sequences, dispatch cases and override keys replayed on the real "
